@@ -354,6 +354,10 @@ FIXED = [
                               {'kind': 'text', 'settings': False, 'pics': []}], 'ops': [[1, 2, None], [0, 1, None]]},
     {'mode': 'pkg', 'nums': [7], 'objects': [{'num': 7, 'kind': 'spreadsheet', 'settings': False, 'pic': True, 'file': False, 'nested': False}],
      'root_first': True, 'extras': False},
+    # an object whose picture comes from a file with an abnormal tail after its last '.' (regression input of fix 31ca861)
+    {'mode': 'hist', 'docs': [{'kind': 'text', 'settings': False, 'pics': []},
+                              {'kind': 'text', 'settings': False, 'pics': [{'how': 'file', 'data': '616263', 'mt': None, 'ext': '', 'relpath': u'd.//a'}]}],
+     'ops': [[0, 1, None]]},
     # ordered, three levels, pictures in the objects
     {'mode': 'hist', 'docs': [{'kind': 'text', 'settings': True, 'pics': []},
                               {'kind': 'text', 'settings': False, 'pics': [{'how': 'string', 'data': '0102', 'mt': u'image/png'}]},
